@@ -560,7 +560,13 @@ bloc_evaluate_expression(bloc_context *ctx, bloc_expression *e)
 {
   try
   {
-    bloc::Value& v = reinterpret_cast<bloc::Expression*>(e)->value(*reinterpret_cast<bloc::Context*>(ctx));
+    bloc::Context& c = *reinterpret_cast<bloc::Context*>(ctx);
+    bloc::Expression * x = reinterpret_cast<bloc::Expression*>(e);
+    bloc::Value& v = x->value(c);
+    /* the value of a constant lives in the expression, which the caller may
+     * free: hand out a value that lives in the context like any other result */
+    if (x->isConst())
+      return reinterpret_cast<bloc_value*>(&c.allocate(v.clone()));
     return reinterpret_cast<bloc_value*>(&v);
   }
   catch (bloc::RuntimeError& re)
